@@ -8,6 +8,7 @@
    for BLAKE3 truncated to 16 bytes.  "Up to hash collisions" is an explicit disjunct and
    the colliding pair is computed by [find_collision] from the inputs H was applied to. *)
 From LP Require Import Prelude Pay Semver Merkle MerkleProofs.
+From LP Require Stages.
 Import ListNotations.
 Local Open Scope N_scope.
 
@@ -165,6 +166,31 @@ Proof. exact tw_roots_immutable_step. Qed.
 Theorem C14_tiered_roots_immutable_history_with_migrates : forall h s, tw_roots (tw_run_steps h s) = tw_roots s.
 Proof. exact tw_roots_immutable_steps. Qed.
 
+(* UpdateStageConfig rebuilds the record at the addressed index and nothing else: the roots,
+   the identities position by position, the length and every other position are kept *)
+Theorem C14_update_stage_in_place : forall sender id st en dn lm s s',
+  tw_update_stage_config sender id st en dn lm s = Ok s' ->
+  tw_roots s' = tw_roots s /\
+  map st_id (tw_stages s') = map st_id (tw_stages s) /\
+  length (tw_stages s') = length (tw_stages s) /\
+  (forall j, j <> N.to_nat id -> nth_error (tw_stages s') j = nth_error (tw_stages s) j).
+Proof. exact tw_update_stage_in_place. Qed.
+
+(* hence the pairing (stage identity, root) by position is invariant over every history of
+   Execute (incl. UpdateStageConfig) and Migrate calls: the list issued for a stage is
+   checked against the root issued with it, for ever *)
+Theorem C14_stage_root_pairing_invariant : forall h s,
+  combine (map st_id (tw_stages (tw_run_steps h s))) (tw_roots (tw_run_steps h s)) =
+  combine (map st_id (tw_stages s)) (tw_roots s).
+Proof. exact tw_pairing_steps. Qed.
+
+(* the update is validated exactly as in C13's model of the tiered family (Stages.v, kind
+   KMerkle): non-empty, fewer than 4 stages, limits in 1..=50, one denom, every window
+   non-empty, each later stage starting no earlier than every earlier one ends *)
+Theorem C14_update_validation_is_C13s : forall l,
+  is_ok (validate_update l) = Stages.validate_update Stages.KMerkle (map to_c13 l).
+Proof. exact validate_update_c13. Qed.
+
 (* so members keep being accepted and non-members rejected across any such history *)
 Theorem C14_has_member_stable_over_histories : forall (H : list N -> list N) h s m p,
   wl_has_member H (wl_run_steps h s) m p = wl_has_member H s m p.
@@ -304,7 +330,7 @@ Proof. vm_compute. discriminate. Qed.
 (* migrate: from 3.0.0, 3.15.9 and 3.16.0 by the admin accepted; a newer stored version, a
    foreign cw2 name, an unparsable version or a non-admin refused; roots as before *)
 Example C14_ex_migrate :
-  let s := mkTw [7] true [mkStage 100 200 0 1] [hex_encode (repeat 1 16)] in
+  let s := mkTw [7] true [mkStage 0 100 200 0 1] [hex_encode (repeat 1 16)] in
   map (fun c => match c with (a, n, v) => is_ok (tw_migrate a n v s) end)
       [(true, true, Some (3, 0, 0)); (true, true, Some (3, 15, 9)); (true, true, Some (3, 16, 0));
        (true, true, Some (3, 16, 1)); (true, true, Some (4, 0, 0)); (true, false, Some (3, 0, 0));
@@ -314,9 +340,29 @@ Example C14_ex_migrate :
                           TsMigrate false true (Some (3, 0, 0))] s) = tw_roots s.
 Proof. vm_compute. split; reflexivity. Qed.
 
+(* re-scheduling: a window may shrink, grow until it touches its neighbours, and move inside
+   its gap; it may not overlap or cross a neighbour (so no identity ever changes position) *)
+Example C14_ex_reschedule :
+  let s := mkTw [7] true [mkStage 0 100 200 0 1; mkStage 1 200 300 0 1; mkStage 2 400 500 0 1] [[48]; [49]; [50]] in
+  map (fun c => match c with (id, st, en) => is_ok (tw_update_stage_config 7 id st en None None s) end)
+      [(1, Some 210, Some 290); (1, None, Some 400); (1, None, Some 401); (1, Some 199, None);
+       (0, Some 600, Some 700); (2, Some 10, Some 50); (1, Some 310, Some 390); (2, Some 300, None); (3, None, None)]
+  = [true; true; false; false; false; false; true; true; false] /\
+  match tw_update_stage_config 7 1 (Some 310) (Some 390) None None s with
+  | Ok s' => tw_pairing s' = [(0, [48]); (1, [49]); (2, [50])]
+  | Err => False
+  end.
+Proof. vm_compute. split; reflexivity. Qed.
+
+(* the leaf: stage 0 is rendered "0", it is not dropped *)
+Example C14_ex_leaf_stage_zero :
+  leaf (Some 0) [115;49;113] None = [48; 115;49;113] /\ leaf (Some 0) [115;49;113] (Some 0) = [48; 115;49;113; 48] /\
+  leaf None [115;49;113] None = [115;49;113] /\ leaf (Some 0) [115;49;113] None <> leaf None [115;49;113] None.
+Proof. vm_compute. repeat split; try reflexivity. discriminate. Qed.
+
 (* tiered: at the shared boundary instant of two adjacent stages the earlier stage wins *)
 Example C14_ex_tiered_boundary :
-  let st := [mkStage 100 200 0 1; mkStage 200 300 0 1; mkStage 400 500 0 1] in
+  let st := [mkStage 0 100 200 0 1; mkStage 1 200 300 0 1; mkStage 2 400 500 0 1] in
   map (fun t => active_index t st) [99; 100; 200; 201; 300; 301; 400; 500; 501]
   = [None; Some 0; Some 0; Some 1; Some 1; None; Some 2; Some 2; None]%nat.
 Proof. vm_compute. reflexivity. Qed.
@@ -353,6 +399,9 @@ Print Assumptions C14_root_immutable_step.
 Print Assumptions C14_root_immutable_history_with_migrates.
 Print Assumptions C14_tiered_roots_immutable_step.
 Print Assumptions C14_tiered_roots_immutable_history_with_migrates.
+Print Assumptions C14_update_stage_in_place.
+Print Assumptions C14_stage_root_pairing_invariant.
+Print Assumptions C14_update_validation_is_C13s.
 Print Assumptions C14_has_member_stable_over_histories.
 Print Assumptions C14_tiered_has_member_stable_over_migrate.
 Print Assumptions C14_tiered_uses_active_root.
